@@ -105,8 +105,11 @@ def _tol(dtype):
 
 class Mon:
     def __init__(self, rec):
+        from ..history import ResultHistory
+
         self.rec = rec
         self.case = None
+        self.hist = ResultHistory(rec, self.v)
 
     def attach(self):
         from pydrobert.speech import post as P
@@ -192,6 +195,7 @@ class Mon:
                 self.v("Deltas.apply modified its input", check="input_modified", **info)
             if out.size and np.shares_memory(out, kw["features"]):
                 self.v("Deltas.apply result aliases its input (in_place=False)", check="aliasing", **info)
+        self.hist.observe(d, c.result, "Deltas.apply", overwritten=[kw["features"]] if kw["in_place"] else [], **info)
         if nd >= 1 and before.shape[axis % before.ndim] >= 2 and before.size:
             self.rec.nt(("deltas", tuple(before.shape), str(before.dtype), axis, target_axis, concatenate, nd, window, str(pad_mode)))
         self.rec.count("deltas_ndim_%d" % before.ndim)
@@ -237,6 +241,7 @@ class Mon:
                 self.v("Stack.apply modified its input", check="input_modified", **info)
             if out.size and np.shares_memory(out, kw["features"]):
                 self.v("Stack.apply result aliases its input (in_place=False)", check="aliasing", **info)
+        self.hist.observe(s, c.result, "Stack.apply", overwritten=[kw["features"]] if kw["in_place"] else [], **info)
         if n >= 2 and ref.size:
             self.rec.nt(("stack", tuple(before.shape), str(before.dtype), kw["axis"], s.time_axis, n, str(pad_mode)))
         self.rec.count("stack_ndim_%d" % before.ndim)
@@ -300,6 +305,16 @@ def run_case(case, rec, mon=None):
                     d.apply(x, axis=axis, in_place=False)
             except Exception:
                 pass
+            if rng.random() < 0.5:
+                # the same object again: same shape, the element types in turn (a stateless transform has no memory)
+                rec.count("deltas_objects_called_repeatedly")
+                for dt2 in [str(t) for t in rng.permutation(["float64", "float32", "int32", dtype])][:3]:
+                    x2 = _data(rng, shape, dt2)
+                    x2.setflags(write=False)
+                    try:
+                        d.apply(x2, axis)
+                    except Exception:
+                        pass
             last = {"shape": shape, "dtype": dtype, "axis": axis, "target_axis": target_axis, "concatenate": concatenate, "num_deltas": nd, "window": W, "pad_mode": str(mode)}
         else:
             time_axis = int(rng.integers(-ndim, ndim))
@@ -329,6 +344,15 @@ def run_case(case, rec, mon=None):
                 y = s.apply(x, axis, in_place) if rng.random() < 0.5 else s.apply(x, axis=axis, in_place=in_place)
             except Exception:
                 y = None
+            if rng.random() < 0.4:
+                rec.count("stack_objects_called_repeatedly")
+                for dt2 in [str(t) for t in rng.permutation(["float64", "float32", "int32", dtype])][:2]:
+                    x2 = _data(rng, shape, dt2)
+                    x2.setflags(write=False)
+                    try:
+                        s.apply(x2, axis)
+                    except Exception:
+                        pass
             if ndim == 2 and y is not None:
                 # 2-D fast path vs the N-D path on the same data with a trailing singleton axis
                 x3 = np.array(x)[:, :, None]
